@@ -57,24 +57,26 @@ import (
 
 // Server behaviours for one upload.
 const (
-	vc16gAck             = iota // read all, commit, SendAndClose(Empty)
-	vc16gAckNoMsg               // read all, commit, return nil without a response message
-	vc16gErrBefore              // status error before reading anything
-	vc16gErrMid                 // read one message, then status error
-	vc16gErrAfter               // read all, then status error (nothing committed)
-	vc16gPartialOK              // read one message only, commit, SendAndClose(Empty)
-	vc16gSlowNoCommit           // read K messages, then never answer; client has a short deadline
-	vc16gSlowAfterCommit        // read all, commit, then answer only after the client has given up
-	vc16gCancelMid              // read K messages, the caller's context gets cancelled, nothing committed
-	vc16gDropBefore             // drop the connection before reading
-	vc16gDropMid                // read one message, drop the connection
-	vc16gDropAfterCommit        // read all, commit, drop the connection instead of answering
+	vc16gAck               = iota // read all, commit, SendAndClose(Empty)
+	vc16gAckNoMsg                 // read all, commit, return nil without a response message
+	vc16gErrBefore                // status error before reading anything
+	vc16gErrMid                   // read one message, then status error
+	vc16gErrAfter                 // read all, then status error (nothing committed)
+	vc16gPartialOK                // read one message only, commit, SendAndClose(Empty)
+	vc16gSlowNoCommit             // read K messages, then never answer; client has a short deadline
+	vc16gSlowAfterCommit          // read all, commit, then answer only after the client has given up
+	vc16gCancelMid                // read K messages, the caller's context gets cancelled, nothing committed
+	vc16gDropBefore               // drop the connection before reading
+	vc16gDropMid                  // read one message, drop the connection
+	vc16gDropAfterCommit          // read all, commit, drop the connection instead of answering
+	vc16gAckUnlessComplete        // read all; status error if that was the whole batch, else commit and ack
 	vc16gModes
 )
 
 var vc16gModeNames = []string{
 	"ack", "ack-no-message", "error-before", "error-mid", "error-after", "partial-read-ok",
 	"slow-no-commit", "slow-after-commit", "cancel-mid", "drop-before", "drop-mid", "drop-after-commit",
+	"ack-unless-whole-batch",
 }
 
 // vc16gDisagree reports whether client and server may legitimately disagree
@@ -94,6 +96,20 @@ type vc16gScript struct {
 	// Refresh meanwhile).
 	mid    []vc16Rec
 	record func(rc *vc16Rec)
+
+	// faultStream is the number (from 1) of the stream of this upload that
+	// gets the scripted behaviour; every other stream of the same upload is
+	// acknowledged normally.  An uploader that uses one stream per upload
+	// never reaches faultStream > 1.
+	faultStream int
+
+	// laterOrOnly replaces faultStream: the fault hits the second stream of
+	// the upload if there is one and the first otherwise.  The first stream
+	// is read to its end; if it carried the whole batch (expect messages) it
+	// is failed after reading, else it is acknowledged and the next stream
+	// of the upload gets the scripted failure.
+	laterOrOnly bool
+	expect      int
 }
 
 // vc16gRPC is what the server saw of one RPC.
@@ -113,6 +129,7 @@ type vc16gServer struct {
 	mu       sync.Mutex
 	cond     *sync.Cond
 	round    string // identity of the current Refresh, carried in the request metadata
+	streamNo int    // streams of the current Refresh so far
 	stale    int    // RPCs of an earlier Refresh that arrived late
 	script   *vc16gScript
 	started  int
@@ -165,24 +182,36 @@ func (s *vc16gServer) SaveDevicesBillingStat(
 		return status.Error(codes.Aborted, "vc16g: stale RPC")
 	}
 
-	sc := s.script
-	s.script = nil
+	s.streamNo++
+	up := s.script
 	rpc := &vc16gRPC{}
-	if sc == nil {
-		// An RPC the history did not script (e.g. an internal retry) is
-		// acknowledged normally.
-		sc = &vc16gScript{mode: vc16gAck}
+	sc := &vc16gScript{mode: vc16gAck, code: codes.Unavailable}
+	switch {
+	case up == nil:
+		// Not scripted: acknowledged normally.
 		rpc.unscripted = true
+	case up.laterOrOnly && s.streamNo == 1:
+		*sc = *up
+		sc.mode = vc16gAckUnlessComplete
+	case up.laterOrOnly && s.streamNo == 2, !up.laterOrOnly && s.streamNo == up.faultStream:
+		*sc = *up
+	default:
+		// Another stream of the same upload: acknowledged normally.
+	}
+
+	var mid []vc16Rec
+	if up != nil && s.streamNo == 1 {
+		mid = up.mid
 	}
 
 	rpc.mode = sc.mode
-	rpc.midDone = len(sc.mid) > 0
+	rpc.midDone = len(mid) > 0
 	s.rpcs = append(s.rpcs, rpc)
 	s.started++
 	s.mu.Unlock()
 
-	for i := range sc.mid {
-		sc.record(&sc.mid[i])
+	for i := range mid {
+		up.record(&mid[i])
 	}
 
 	defer func() {
@@ -241,6 +270,22 @@ func (s *vc16gServer) SaveDevicesBillingStat(
 		commit()
 
 		return nil
+	case vc16gAckUnlessComplete:
+		if err = read(-1); err != nil {
+			return err
+		}
+
+		s.mu.Lock()
+		whole := len(rpc.msgs) >= sc.expect
+		s.mu.Unlock()
+
+		if whole {
+			return serr
+		}
+
+		commit()
+
+		return srv.SendAndClose(&emptypb.Empty{})
 	case vc16gErrBefore:
 		return serr
 	case vc16gErrMid:
@@ -332,12 +377,13 @@ func vc16gMsgStr(m *DeviceBillingStat) string {
 
 func TestVerifC16GRPC(t *testing.T) {
 	st := vstat.New("C16", "backendpb.grpc",
-		"rapid histories through RuntimeRecorder -> real backendpb.BillStat -> real grpc-go client -> in-process gRPC server on loopback; per round 0..4 records with start times drawn independently of the recording order, then a Refresh (0..2 further queries are recorded by the server's handler as soon as the RPC has arrived, i.e. while the upload is in flight) for which the server's behaviour is drawn: ack with Empty | OK without a response message | status error before / in the middle of / after reading | read one message then OK | never answer (short client deadline) | commit then answer too late | caller cancels mid-stream | drop the connection before / in the middle / after committing; the server's own commit record is the oracle's 'delivered'; non-trivial = an upload holding device d that the server did not acknowledge normally, followed by a committed upload holding d; distinct by (devices, server behaviours)",
+		"rapid histories through RuntimeRecorder -> real backendpb.BillStat -> real grpc-go client -> in-process gRPC server on loopback; 1..40 devices, in about one case in 25 one round records a query for each of 4095 | 4096 | 4097 | 5000 | 8200 | 12300 devices; the scripted behaviour applies to the 1st | 2nd | 3rd stream of an upload (other streams are acknowledged), or to the 2nd stream if the uploader opens one and else to the only one; what the server ACCEPTED is counted per stream answered OK; per round 0..4 records with start times drawn independently of the recording order, then a Refresh (0..2 further queries are recorded by the server's handler as soon as the RPC has arrived, i.e. while the upload is in flight) for which the server's behaviour is drawn: ack with Empty | OK without a response message | status error before / in the middle of / after reading | read one message then OK | never answer (short client deadline) | commit then answer too late | caller cancels mid-stream | drop the connection before / in the middle / after committing; the server's own commit record is the oracle's 'delivered'; non-trivial = an upload holding device d that the server did not acknowledge normally, followed by a committed upload holding d; distinct by (devices, server behaviours)",
 		"server-ok-without-response-message", "server-error-mid-stream", "committed-upload-not-resent",
 		"server-error-before", "server-error-after-reading", "server-partial-read-ok", "client-deadline-server-silent",
 		"server-committed-client-timed-out", "caller-cancelled-mid-stream", "connection-dropped-mid-stream",
 		"connection-dropped-after-commit", "uncommitted-then-committed",
-		"recorded-during-failed-upload-with-earlier-start-time", "recorded-during-failed-upload-with-equal-start-time", "recorded-during-failed-upload-with-later-start-time")
+		"recorded-during-failed-upload-with-earlier-start-time", "recorded-during-failed-upload-with-equal-start-time", "recorded-during-failed-upload-with-later-start-time",
+		"batch-over-4096-devices", "batch-over-4096-devices-with-fault-on-later-rpc")
 	st.Finish(t)
 
 	l, err := net.Listen("tcp", "127.0.0.1:0")
@@ -463,8 +509,27 @@ func TestVerifC16GRPC(t *testing.T) {
 			sc.cancel = cancel
 			ctx = metadata.AppendToOutgoingContext(ctx, vc16gRoundKey, round)
 
+			if sc.faultStream == 0 {
+				sc.faultStream = 1
+			}
+
+			sc.expect = 0
+			for _, held := range heldBefore {
+				if held {
+					sc.expect++
+				}
+			}
+
+			if sc.expect > 4096 {
+				w.classes["batch-over-4096-devices"] = true
+				if sc.laterOrOnly {
+					w.classes["batch-over-4096-devices-with-fault-on-later-rpc"] = true
+				}
+			}
+
 			srv.mu.Lock()
 			srv.round = round
+			srv.streamNo = 0
 			srv.script = sc
 			srv.rpcs = nil
 			srv.mu.Unlock()
@@ -485,19 +550,38 @@ func TestVerifC16GRPC(t *testing.T) {
 			srv.rpcs = nil
 			srv.mu.Unlock()
 
-			w.log = append(w.log, fmt.Sprintf("Refresh (server: %s, code %s) -> client err=%v; server saw %d RPC(s)", vc16gModeNames[sc.mode], sc.code, cerr, len(rpcs)))
+			where := fmt.Sprintf("on stream %d", sc.faultStream)
+			if sc.laterOrOnly {
+				where = "on the 2nd stream if there is one, else on the only one"
+			}
+
+			w.log = append(w.log, fmt.Sprintf("Refresh (server: %s %s, code %s) -> client err=%v; server saw %d RPC(s)", vc16gModeNames[sc.mode], where, sc.code, cerr, len(rpcs)))
 
 			if timeout == longTimeout && sc.mode != vc16gCancelMid && ctxErr != nil {
 				vc16gInconclusive(t, "an upload with a %s deadline ran out of time", longTimeout)
+			}
+
+			// Devices seen in any stream of this upload.
+			seenUpload := map[agd.DeviceID]bool{}
+			for _, rpc := range rpcs {
+				for _, m := range rpc.msgs {
+					seenUpload[agd.DeviceID(m.DeviceId)] = true
+				}
 			}
 
 			for _, rpc := range rpcs {
 				nMsg += len(rpc.msgs)
 				seen := map[agd.DeviceID]bool{}
 				batch := map[agd.DeviceID]int64{}
+				nLogged := 0
 				for _, m := range rpc.msgs {
 					d := agd.DeviceID(m.DeviceId)
-					w.log = append(w.log, "  server read "+vc16gMsgStr(m))
+					if nLogged++; nLogged <= 6 {
+						w.log = append(w.log, "  server read "+vc16gMsgStr(m))
+					} else if nLogged == 7 {
+						w.log = append(w.log, fmt.Sprintf("  ... (%d messages in this stream)", len(rpc.msgs)))
+					}
+
 					if seen[d] {
 						w.fatalf("device %s appears twice in one upload", d)
 					}
@@ -525,7 +609,7 @@ func TestVerifC16GRPC(t *testing.T) {
 					batch[d] = int64(m.Queries)
 				}
 
-				w.log = append(w.log, fmt.Sprintf("  server finished: committed=%t (read %d message(s), end of stream seen: %t)", rpc.committed, len(rpc.msgs), rpc.sawEOF))
+				w.log = append(w.log, fmt.Sprintf("  server (%s) finished: committed=%t (read %d message(s), end of stream seen: %t)", vc16gModeNames[rpc.mode], rpc.committed, len(rpc.msgs), rpc.sawEOF))
 
 				nonEmpty := len(batch) > 0
 				if !rpc.committed {
@@ -545,7 +629,7 @@ func TestVerifC16GRPC(t *testing.T) {
 					// failed upload was in flight; its start time against
 					// the held one.
 					for i := range sc.mid {
-						d := vc16Devs[sc.mid[i].Dev]
+						d := vc16Dev(sc.mid[i].Dev)
 						if !rpc.midDone || !heldBefore[d] || cerr == nil {
 							continue
 						}
@@ -592,7 +676,7 @@ func TestVerifC16GRPC(t *testing.T) {
 				// the documented meaning, and is credited from the model.
 				if rpc.mode == vc16gPartialOK {
 					for d := range recBefore {
-						if _, read := batch[d]; !read && !seen[d] && recBefore[d] > w.delivered[d] {
+						if _, read := batch[d]; !read && !seenUpload[d] && recBefore[d] > w.delivered[d] {
 							batch[d] = recBefore[d] - w.delivered[d]
 							w.classes["server-partial-read-ok"] = true
 						}
@@ -609,7 +693,7 @@ func TestVerifC16GRPC(t *testing.T) {
 				}
 
 				switch {
-				case cerr != nil && vc16gDisagree(rpc.mode):
+				case cerr != nil && (vc16gDisagree(rpc.mode) || ctxErr != nil):
 					// Legitimate disagreement: a repeated delivery of this
 					// batch is not judged.
 					for d, q := range batch {
@@ -617,6 +701,10 @@ func TestVerifC16GRPC(t *testing.T) {
 					}
 
 					switch rpc.mode {
+					default:
+						// The caller's context ended while the server was
+						// committing: a disagreement whatever the script.
+						w.classes["server-committed-caller-context-done"] = true
 					case vc16gSlowAfterCommit:
 						w.classes["server-committed-client-timed-out"] = true
 					case vc16gDropAfterCommit:
@@ -640,16 +728,33 @@ func TestVerifC16GRPC(t *testing.T) {
 			return cerr, nMsg
 		}
 
-		nDev := rapid.IntRange(1, 4).Draw(t, "nDev")
+		nDev := rapid.SampledFrom([]int{2, 1, 3, 4, 2, 7, 15, 40}).Draw(t, "nDev")
 		nRounds := rapid.IntRange(1, 6).Draw(t, "rounds")
+
+		// Rarely, one round records a query for each of very many devices,
+		// around and above 4096 per upload.
+		big, bigRound := 0, -1
+		if bb := rapid.IntRange(0, 24).Draw(t, "bigBatch"); bb == 13 || bb == 7 {
+			big = rapid.SampledFrom([]int{4097, 5000, 4096, 4095, 8200, 12300}).Draw(t, "bigDevices")
+			nRounds = min(nRounds, 3)
+			bigRound = rapid.IntRange(0, min(1, nRounds-1)).Draw(t, "bigRound")
+		}
+
 		key := &strings.Builder{}
 		for i := 0; i < nRounds; i++ {
+			if i == bigRound {
+				w.recordBulk(big)
+				clear(agreed)
+				fmt.Fprintf(key, "bulk%d ", big)
+				w.classes[fmt.Sprintf("bulk-%d-devices", big)] = true
+			}
+
 			nPre := rapid.SampledFrom([]int{2, 0, 1, 3, 4, 0}).Draw(t, "nPre")
 			for j := 0; j < nPre; j++ {
 				rc := vc16DrawRec(t, nDev)
 				rc.DoneCtx = false
-				key.WriteByte(byte('a' + rc.Dev))
-				delete(agreed, vc16Devs[rc.Dev])
+				fmt.Fprintf(key, "%d,", rc.Dev)
+				delete(agreed, vc16Dev(rc.Dev))
 				w.record(&rc)
 			}
 
@@ -659,14 +764,36 @@ func TestVerifC16GRPC(t *testing.T) {
 				k: rapid.IntRange(0, 2).Draw(t, "readBeforeFault"),
 				code: rapid.SampledFrom([]codes.Code{codes.Unavailable, codes.Internal, codes.DeadlineExceeded, codes.Unauthenticated,
 					codes.ResourceExhausted}).Draw(t, "code"),
+				faultStream: rapid.SampledFrom([]int{1, 1, 2, 1, 3}).Draw(t, "faultStream"),
+			}
+
+			// The behaviours that need a short client deadline are only
+			// used on the first stream: a later stream may never exist, and
+			// the first one would then be acknowledged against that deadline.
+			if sc.faultStream != 1 && (sc.mode == vc16gSlowNoCommit || sc.mode == vc16gSlowAfterCommit) {
+				sc.mode = vc16gErrAfter
+			}
+
+			// The fault on the second stream of the upload if the uploader
+			// opens one, on the only stream otherwise: mostly for the round
+			// with the many devices.
+			lo := rapid.IntRange(0, 7).Draw(t, "laterOrOnly")
+			if (i == bigRound && lo != 5) || lo == 3 {
+				sc.laterOrOnly = true
+				switch sc.mode {
+				case vc16gErrBefore, vc16gErrMid, vc16gErrAfter, vc16gDropBefore, vc16gDropMid:
+					// Keep the drawn way of failing.
+				default:
+					sc.mode = vc16gErrAfter
+				}
 			}
 
 			nMid := rapid.SampledFrom([]int{0, 1, 0, 2}).Draw(t, "nMid")
-			fmt.Fprintf(key, "/%s(", vc16gModeNames[sc.mode])
+			fmt.Fprintf(key, "/%s@%d%t(", vc16gModeNames[sc.mode], sc.faultStream, sc.laterOrOnly)
 			for j := 0; j < nMid; j++ {
 				rc := vc16DrawRec(t, nDev)
 				rc.DoneCtx = false
-				key.WriteByte(byte('a' + rc.Dev))
+				fmt.Fprintf(key, "%d,", rc.Dev)
 				sc.mid = append(sc.mid, rc)
 			}
 
